@@ -23,6 +23,7 @@ import (
 	"sort"
 	"strconv"
 	"strings"
+	"sync"
 	"time"
 
 	"github.com/AdguardTeam/AdGuardDNS/internal/cmd"
@@ -267,7 +268,14 @@ func runWiredCase(r *hlib.Result, m *hlib.Model, w *world, rng *rand.Rand, no in
 			return w.mkFault(rng, fk, wiredMax, mk, g.junk, g.empty)
 		}
 
-		return &plan{kind: "ok", c: mk(0)}
+		pl := &plan{kind: "ok", c: mk(0)}
+		if len(pl.c.body) < wiredMax && rng.IntN(3) == 0 {
+			// As a CDN sends it: gzip-coded.
+			pl.kind = "okgzip"
+			r.Count("wired_okgzip")
+		}
+
+		return pl
 	}
 
 	// exact: a healthy document of exactly n bytes (JSON documents are padded
@@ -410,8 +418,28 @@ func runWiredCase(r *hlib.Result, m *hlib.Model, w *world, rng *rand.Rand, no in
 				}
 			}
 		} else {
-			for _, id := range []string{"filters/hashprefix/adult_blocking", "filters/hashprefix/newly_registered_domains", "filters/hashprefix/safe_browsing", "filters/storage"} {
-				errs[id] = wd.VerifC13Refresh(ctx, id)
+			ids := []string{"filters/hashprefix/adult_blocking", "filters/hashprefix/newly_registered_domains", "filters/hashprefix/safe_browsing", "filters/storage"}
+			if no%2 == 1 {
+				// As in production, where every one of them has a refresh
+				// worker of its own on the same cache directory: all at once.
+				var wg sync.WaitGroup
+				var emu sync.Mutex
+				for _, id := range ids {
+					wg.Add(1)
+					go func() {
+						defer wg.Done()
+						e := wd.VerifC13Refresh(ctx, id)
+						emu.Lock()
+						errs[id] = e
+						emu.Unlock()
+					}()
+				}
+				wg.Wait()
+				r.Count("wired_round_refreshers_simultaneous")
+			} else {
+				for _, id := range ids {
+					errs[id] = wd.VerifC13Refresh(ctx, id)
+				}
 			}
 		}
 		cancel()
